@@ -578,6 +578,21 @@ func (rm *room) mutatePL(before map[ref.Key]string, actor user, honest bool) map
 		my = 1000
 	}
 	level := func() any {
+		if t.Chance(200) {
+			// a value at, just above or just below another user's level: the
+			// boundaries the comparisons are about lie between users
+			o := sim.Pick(t, rm.users)
+			ol := int64(0)
+			if v, ok := users[o.id]; ok {
+				ol, _ = lvl(v)
+			} else if v, ok := out["users_default"]; ok {
+				ol, _ = lvl(v)
+			}
+			v := int(ol) + sim.Pick(t, []int{-1, 0, 1})
+			if !honest || v <= int(my) {
+				return v
+			}
+		}
 		if honest {
 			return int(my) - t.Intn(60)
 		}
